@@ -50,7 +50,8 @@ def plan(tier, seed):
 def floors(tier):
     return {'evaluations': 30000, 'distinct_nontrivial': 10000, 'errors_located': 15000,
             'faults_injected': 20000, 'histkeys:fault': 9, 'legacy_api_errors': 3000,
-            'custom_context_soups': 500, 'parser_class_context_soups': 1000, 'parses_from_configured_state': 2000}
+            'custom_context_soups': 500, 'parser_class_context_soups': 1000, 'parses_from_configured_state': 2000,
+            'stop_condition_entry_points': 3000, 'truncated_documents_parsed_before_injection': 500}
 
 
 def setup(rec):
@@ -63,8 +64,14 @@ def strict_outcome(s, ctx, api, psopts=None):
         lw = walker(s, ctx, tolerant=False, psopts=psopts)
         if api == 'new':
             nl, _ = lw.parse_content(LatexGeneralNodesParser())
-        else:
+        elif api == 'legacy':
             nl = lw.get_latex_nodes()[0]
+        elif api.startswith('legacy-max'):
+            # the legacy entry point with its node-count stop condition
+            nl = lw.get_latex_nodes(read_max_nodes=int(api[len('legacy-max'):]))[0]
+        elif api == 'single-node':
+            from pylatexenc.latexnodes.parsers import LatexSingleNodeParser
+            nl, _ = lw.parse_content(LatexSingleNodeParser())
         return 'ok', nl, lw
     except LatexWalkerParseError as e:
         return 'parse_error', e, None
@@ -92,6 +99,9 @@ def check_case(case, rec):
     ctx = work.ctx_for(case.get('ctx'))
     must_raise = case.get('must_raise', False)
     apis = case.get('apis', ['new', 'legacy'])
+    if 'apis' not in case and len(s) % 4 == 1:
+        apis = apis + ['legacy-max%d' % (1 + len(s) % 3), 'single-node']
+        rec.monitor('stop_condition_entry_points')
     psopts = case.get('psopts')
     if psopts:
         rec.monitor('parses_from_configured_state')
@@ -153,8 +163,6 @@ def run_shard(desc, rec):
         for j in range(max(1, desc['count'] // 400)):
             vseed = [rng.randrange(1 << 30), j]
             vocab, db = work.vocab_from_seed(vseed)
-            if not vocab.unknown_ok:
-                continue    # without fallback specs an unknown name is outside every property
             for s in work.custom_soups(rng, vocab, 100):
                 rec.case()
                 rec.monitor('custom_context_soups')
@@ -185,6 +193,13 @@ def run_shard(desc, rec):
                 check_case({'s': s, 'ctx': cdesc}, rec)
                 continue
             envname = 'zz' if vocab.unknown_ok else 'enva'
+            # earlier failed parses in the same process (same context database, same cached argument parsers): the
+            # document cut off at arbitrary places, e.g. inside an argument or inside verbatim text
+            for _ in range(2):
+                cut = rng.randint(1, max(1, len(s) - 1))
+                rec.case()
+                rec.monitor('truncated_documents_parsed_before_injection')
+                check_case({'s': s[:cut], 'ctx': cdesc, 'apis': ['new']}, rec)
             bs = list(bounds)
             if len(bs) > desc['maxb']:
                 bs = sorted(rng.sample(bs, desc['maxb']))
